@@ -234,7 +234,7 @@ func (m *C07Mon) End(h *Hand, s *pokerface.GameState) {
 			g.LoadState(cloneGS(g.GetState()))
 			continue
 		}
-		if t.Kind == "query" || t.Kind == "probe" {
+		if t.Kind == "query" || t.Kind == "probe" || t.Kind == "swap" {
 			continue
 		}
 		err := applyOp(g, t.Op)
